@@ -197,8 +197,16 @@ class G:
                         o = self.cb_op(s)
                         ops.extend(o if isinstance(o, list) else [o])
                     if r.random() < 0.3:
-                        # self-directed deferred request
-                        ops.append({"op": r.choice(["disable", "update"]), "ts": s})
+                        # self-directed deferred request, after or BEFORE the operations on other sources (an immediate
+                        # operation on somebody else must leave the request of the running source alone)
+                        req = {"op": r.choice(["disable", "update"]), "ts": s}
+                        if r.random() < 0.5:
+                            ops.append(req)
+                        else:
+                            ops.insert(0, req)
+                            others = [d2["s"] for d2 in self.srcs if d2["s"] != s]
+                            if others and r.random() < 0.6:
+                                ops.append({"op": r.choice(["disable", "disable", "update"]), "ts": r.choice(others)})
                 p = {"ops": ops}
                 if d["kind"] == "comp":
                     single = nch(d) == 1
